@@ -1258,6 +1258,21 @@ def e2e_check(ctx, case, results, answers):
                                      else 'zero displacement does not return the template'),
                               'entry {}: stored {} returned {}'.format(k, vt, tok), rc)
                 break
+    if api == 'resampling' and dom['kind'] == 'uniform' and set(sch) == {'n'} and \
+            all(m % n == 0 for n, m in zip(dom['shape'], case['ran']['shape'])):
+        # nearest resampling to a k-fold refinement: entry idx is the stored entry idx // k
+        ctx.hit('e2e/theorem/resampling_nearest_refine')
+        ks = [m // n for n, m in zip(dom['shape'], case['ran']['shape'])]
+        for ridx, tok in zip(itertools.product(*[range(m) for m in case['ran']['shape']]), toks):
+            flat = 0
+            for i, k, n in zip(ridx, ks, dims):
+                flat = flat * n + i // k
+            vt = case['vals'][flat]
+            if differs(tok, parse_c(vt) if numeric else vt):
+                ctx.violation(key + 'nearest resampling to a refined grid is not the piecewise constant '
+                              'prolongation', 'entry {} (factors {}): expected stored entry {} = {} got {}'.format(
+                                  list(ridx), ks, flat, vt, tok), rc)
+                break
     if numeric and case.get('affine_data') and set(sch) == {'l'}:
         ctx.hit('e2e/theorem/' + ('resampling_affine_exact' if api == 'resampling' else 'deform_affine_exact'))
         for pt, ins, tok in zip(pts, inside, toks):
@@ -1303,6 +1318,14 @@ def theorem_op_cases(rng, reps):
                 out.append(dict(kind='interp', api='resampling', sch=sch, dtype=dt, dom=dom, ran=dict(dom),
                                 vals=gen_values(rng, size, dt, distinct=True), single_string=False,
                                 aseed=rng.getrandbits(30)))
+            # nearest on every axis, k-fold refined range grid (k a power of two: dyadic nodes)
+            ndt = [dt, 'int64'][rep % 2] if d > 1 else dt
+            dom, ran = gen_space_pair(rng, d, ndt, False)
+            ran['shape'] = [n * rng.choice([1, 2, 2, 4]) for n in dom['shape']]
+            size = int(np.prod(dom['shape']))
+            out.append(dict(kind='interp', api='resampling', sch='n' * d, dtype=ndt, dom=dom, ran=ran,
+                            vals=gen_values(rng, size, ndt, distinct=True), single_string=(rep % 2 == 1),
+                            aseed=rng.getrandbits(30)))
             # affine data, all linear, coarser (or equal) uniform range grid
             dom, ran = gen_space_pair(rng, d, dt, False)
             coords = spec_coords(dom)
@@ -2491,7 +2514,7 @@ MODEL_BRANCHES = ['axis/{}/{}'.format(s_, b) for s_ in 'ln' for b in ('lo', 'hi'
     ['e2e/resample/' + b for b in ('dom-uniform', 'dom-nonuniform', 'axis-same', 'axis-coarsen', 'axis-refine',
                                    'all-inside-hull', 'point-outside-hull')] + \
     ['e2e/deform/' + b for b in ('zero-disp', 'moved', 'all-inside-hull', 'point-outside-hull')] + \
-    ['e2e/theorem/' + b for b in ('resampling_same_grid_identity', 'resampling_affine_exact',
+    ['e2e/theorem/' + b for b in ('resampling_same_grid_identity', 'resampling_affine_exact', 'resampling_nearest_refine',
                                   'deform_zero_identity', 'deform_affine_exact')]
 
 
